@@ -224,8 +224,13 @@ def item_sexp(ld, x):
     return "(? %s)" % type(x).__name__
 
 
-def observe_one(ld, path, mode):
-    """-> (line, mutated)"""
+OPT_DEFAULT = "D9"      # the default_value of the "optd" observations: a text no generated document holds
+
+
+def observe_one(ld, path, mode, default=None):
+    """-> (line, mutated)     mode "optd" = the optional query WITH a default_value (harness modules that
+    observe it send the model's (eval opt ...) request a second time: the value is only read where nodes are
+    created, which both sides report as (mutates))"""
     E = _ENV
     proc = E["Processor"](E["log"], ld.data)
     before = ld.sexp
@@ -236,6 +241,9 @@ def observe_one(ld, path, mode):
     try:
         if mode == "exists":
             res = proc.exists(path)
+        elif mode == "optd" or default is not None:
+            res = list(proc.get_nodes(path, mustexist=False,
+                                      default_value=OPT_DEFAULT if default is None else default))
         else:
             res = list(proc.get_nodes(path, mustexist=(mode == "req")))
     except RecursionError as e:
@@ -791,3 +799,94 @@ def collector_then_text(path, depth=0):
         if isinstance(a, E["SearchTerms"]) and collector_then_text(a.attribute, depth + 1):
             return True
     return False
+
+
+# ---------------------------------------------------------------- optional queries, looked at closely
+MODES4 = ("req", "opt", "exists", "optd")
+
+
+def requests4(case):
+    """requests of a module that also observes the optional query with a default value: per path the three
+    (eval ...) lines and the (eval opt ...) line once more"""
+    doc, paths = case
+    ld = LoadedDoc(doc)
+    out = []
+    for p in paths:
+        three = request_lines(ld, p)
+        out.extend(three)
+        out.append(three[1])
+    _CACHE[(doc, tuple(paths))] = ld
+    return out
+
+
+def observe4(case):
+    doc, paths = case
+    ld = _CACHE.pop((doc, tuple(paths)), None) or LoadedDoc(doc)
+    out = []
+    for p in paths:
+        for m in MODES4:
+            line, mutated = observe_one(ld, p, m)
+            out.append(line)
+            if mutated:
+                ld = LoadedDoc(doc)
+    return out
+
+
+def optional_probe(doc, path, default=None):
+    """One optional query (get_nodes(mustexist=False, default_value=default)) on a fresh load of `doc`, watched
+    from outside the code that decides about creation.  Returns a dict:
+      ids      identities (LoadedDoc numbering; -1 = an object the document did not hold) of the yielded nodes,
+               or None when the query raised
+      changed  the document differs afterwards (deep snapshot) or Nodes.build_next_node was called
+      lacking  some segment evaluation made DIRECTLY by the optional walk - one (node, segment) pair the walk
+               reached - selected nothing although the segment is one that may be created (not a search, keyword,
+               wildcard or traversal): the path does NOT exist in that branch, its tail is missing there.  This is
+               the condition of finding F16b; it is read off the segment handlers' own answers, not off the
+               walk's bookkeeping
+      null_mid a segment other than the last one selected a null node (finding F10: the walk stops there)
+    """
+    import sys as _sys
+    E = _ENV
+    T = E["PathSegmentTypes"]
+    never = (T.SEARCH, T.KEYWORD_SEARCH, T.MATCH_ALL, T.TRAVERSE)
+    st = {"lacking": False, "null_mid": False, "ok": True}
+    ld = LoadedDoc(doc)
+
+    class P(E["Processor"]):
+        def _get_nodes_by_path_segment(self, data, yaml_path, segment_index, **kw):
+            direct = _sys._getframe(1).f_code.co_name == "_get_optional_nodes"
+            n = 0
+            for nc in super()._get_nodes_by_path_segment(data, yaml_path, segment_index, **kw):
+                n += 1
+                if direct and isinstance(nc, E["NodeCoords"]) and nc.node is None \
+                        and segment_index < len(yaml_path.escaped) - 1:
+                    st["null_mid"] = True
+                yield nc
+            if direct and n == 0:
+                try:
+                    if yaml_path.escaped[segment_index][0] not in never:
+                        st["lacking"] = True
+                except Exception:  # noqa
+                    pass
+
+    out = {"ids": None, "changed": False, "lacking": False, "null_mid": False}
+    E["creations"] = 0
+    try:
+        res = list(P(E["log"], ld.data).get_nodes(path, mustexist=False, default_value=default))
+        ids = []
+        for x in res:
+            n = x.node if isinstance(x, E["NodeCoords"]) else x
+            if isinstance(n, list) and id(n) not in ld.enc.oids:
+                ids.append(("virt", tuple(ld.enc.oids.get(id(e.node if isinstance(e, E["NodeCoords"]) else e), -1)
+                                          for e in n)))
+            else:
+                ids.append(ld.enc.oids.get(id(n), -1))
+        out["ids"] = ids
+    except RecursionError:
+        pass
+    except Exception:  # noqa
+        pass
+    out["changed"] = bool(E["creations"]) or ld.snapshot() != ld.sexp
+    out["lacking"] = st["lacking"]
+    out["null_mid"] = st["null_mid"]
+    return out
